@@ -291,7 +291,7 @@ func (c *c20) isolation(tape *kernel.Tape, n int) {
 				var evs []kernel.Event
 				for _, p := range sched.ParkedTasks() {
 					p := p
-					evs = append(evs, kernel.Event{Name: "wake:" + p.Task + "@" + p.Point, Drain: true, Apply: func() { sched.Release(p.Task, "go") }})
+					evs = append(evs, kernel.Event{Name: "wake:" + p.Task + "@" + p.Point, Task: p.Task, Drain: true, Apply: func() { sched.Release(p.Task, "go") }})
 				}
 				return evs
 			}, nil)
